@@ -359,7 +359,7 @@ func (o *Op) lines0() []string {
 		return o.Img.lines(o.Path)
 	case "keys":
 		return getUniverse().keyLines()
-	case "facts", "forge", "transplant", "rewrap", "readd":
+	case "facts", "forge", "transplant", "rewrap", "readd", "mangle", "delmangled":
 		return o.Raw
 	case "vhold":
 		return []string{"vhold " + o.V.String()}
